@@ -84,7 +84,7 @@ def run(ctx):
                 # configuration text -> policy
                 "fact_config_load_order", "fact_env_constants", "fact_env_key_and_flag_load", "fact_http_flags_match_config_tags", "fact_auth_config_keys",
                 "command_line_wins", "environment_beats_file", "unmentioned_key_is_empty", "policy_no_auth_only_if_type_is_empty",
-                "token_auth_on_the_command_line_is_enforced", "config_text_to_no_bypass"]
+                "token_auth_on_the_command_line_is_enforced", "config_text_to_no_bypass", "config_text_to_listener_separation"]
     for r in required:
         if not any(t.endswith("Props." + r) for t in thms):
             ctx.oblige("thm-present:" + r, False, "theorem missing or its module does not build")
